@@ -207,9 +207,14 @@ def run_path(ctx, h, prefix, trace_funcs=False):
     rec['notes'] = list(ctx.notes)
     if rec['status'] == 'error':
         # an unexpected exception is itself a counterexample candidate: any model of the pc
+        proxy_limit = any(t in (rec['error'] or '') for t in ("'SymX'", "'SymInt'", "'SymBool'", 'symbolic real'))
         try:
-            ctx._ensure_model()
-            rec['cex'] = ('no_unexpected_exception', ctx._extract(ctx.model))
+            pm = ctx.path_model() if proxy_limit else None     # generic-position values: the concrete twin decides
+            if pm is not None:
+                rec['cex'] = ('no_unexpected_exception', pm[0])
+            else:
+                ctx._ensure_model()
+                rec['cex'] = ('no_unexpected_exception', ctx._extract(ctx.model))
         except BaseException:
             rec['cex'] = ('no_unexpected_exception', {})
     elif ctx.cex is not None:
